@@ -174,7 +174,20 @@ def run_scenario(job, sc, node_dir):
                 except (OSError, ValueError):
                     pass
 
-    # environment of this execution (the reference node runs with the environment of the harness)
+    # Scratch space is state, not input: by default every execution gets a temporary directory and a home directory of its own
+    # (nothing an earlier run cached there can reach it); the env fault {"TMPDIR": "{node}/tmp", "HOME": "{node}/home"} gives
+    # all scenarios of a node the same ones, as on a real machine, with whatever earlier runs on other inputs left there.
+    own_tmp = os.path.join(workdir, "tmp.own")
+    own_home = os.path.join(workdir, "home.own")
+    os.makedirs(own_tmp, exist_ok=True)
+    os.makedirs(own_home, exist_ok=True)
+    os.environ["TMPDIR"] = own_tmp
+    os.environ["HOME"] = own_home
+    for k in ("XDG_CACHE_HOME", "XDG_CONFIG_HOME", "XDG_DATA_HOME", "TEMP", "TMP"):
+        os.environ.pop(k, None)
+    import tempfile as _tempfile
+
+    _tempfile.tempdir = None
     for k, v in cfg.get("env", {}).items():
         v = v.replace("{node}", node_dir)
         if k in ("TMPDIR", "HOME"):
